@@ -15,9 +15,7 @@ def drain (cfg : Cfg) : Nat → St → St
   | 0, s => s
   | n + 1, s => drain cfg n (runActs cfg s [.cgStep, .tgStep, .fire])
 
-def stepF (_ : Unit) (w : List String) : Option (Unit × String × List String) :=
-  match w with
-  | ["reclaim", cd, _event, window] => do
+def reclaim (cd window : String) (parked : Bool) : Option (Unit × String × List String) := do
     let cd ← cd.toNat?
     let cfg : Cfg := { cooldown := cd > 0 }
     -- idle cleaner: it has evaluated and parked, no timer armed
@@ -33,7 +31,14 @@ def stepF (_ : Unit) (w : List String) : Option (Unit × String × List String) 
         runActs cfg idle [.change false, .cgStep, .cgStep, .cgStep, .change true, .quiesce, .cgStep, .cgStep, .fire, .tgStep]
     let final := drain cfg 12 s
     some ((), s!"size={if final.dirty then 3 else 0} backlog=0",
-      [s!"window_{window}"] ++ (if window == "held" then ["rebroadcast_vs_park_window"] else []) ++ (if cd == 0 then ["cooldown_zero"] else []))
+      [s!"window_{window}"] ++ (if window == "held" then ["rebroadcast_vs_park_window"] else []) ++ (if cd == 0 then ["cooldown_zero"] else []) ++
+      (if parked then ["getters_parked_on_same_cond"] else []))
+
+def stepF (_ : Unit) (w : List String) : Option (Unit × String × List String) :=
+  match w with
+  | ["reclaim", cd, _event, window] => reclaim cd window false
+  -- consumers parked in a blocking Get share the condition variable but not the cleaner's state: same prediction
+  | ["reclaim", cd, _event, window, _parked] => reclaim cd window true
   | _ => none
 
 def fam : Fam := { init := (), step := stepF }
